@@ -7,8 +7,13 @@ PY=/venv/bin/python
 if ! $PY -c "import hypothesis" 2>/dev/null; then
     /venv/bin/pip install --no-index --find-links /opt/veriftools/wheels hypothesis || exit 1
 fi
-mkdir -p .cache/numba evidence replays
-$PY -c "import hypothesis, emg3d, os; assert os.path.realpath(emg3d.__file__).startswith('/repo/'), emg3d.__file__; print('setup ok: hypothesis', hypothesis.__version__, 'emg3d from', emg3d.__file__)" || exit 1
+# atheris (coverage-guided engine, vp/fuzz.py) goes beside the repository's
+# packages into ./.deps (the wheel is in the offline wheelhouse)
+if ! PYTHONPATH="$PWD/.deps" $PY -c "import atheris" 2>/dev/null; then
+    /venv/bin/pip install --no-index --find-links /opt/veriftools/wheels --target "$PWD/.deps" atheris || exit 1
+fi
+mkdir -p .cache/numba .scratch evidence replays
+PYTHONPATH="$PWD/.deps" $PY -c "import hypothesis, atheris, emg3d, os; assert os.path.realpath(emg3d.__file__).startswith('/repo/'), emg3d.__file__; print('setup ok: hypothesis', hypothesis.__version__, 'emg3d from', emg3d.__file__)" || exit 1
 # Warm the numba cache for the current tree (kernels are recompiled whenever
 # core.py / maps.py / fields.py change, see vp/runner.py).
 PYTHONPATH="$PWD" $PY -m vp.runner --warm || exit 1
